@@ -272,6 +272,9 @@ nested
 new paragraph
 .Sm strong <t> .
 .Ed
+said so, see
+.Lk http://example.org/a?b={c&d ""the <site>"" .
+.Lk http://example.org/x
 .Ch
 .Tc
 .Tc -summary -title Contents -nonum
@@ -279,7 +282,7 @@ e
 .Bm
 left open
 ".
-Definition ex_world := mkWorld [] [(R "m.frundis", ex_src)] [] false [].
+Definition ex_world := mkWorld [] [(R "m.frundis", ex_src)] [] false [(R "http://example.org/a?b={c&d", Some (R "http://example.org/a?b={c&d"))].
 Example headersL_example :
   Forall in_fragHL (fst (parse ex_src)) /\
   (let s := compile_source (R "latex") 0 ex_world (R "m.frundis") in
@@ -299,6 +302,10 @@ nested
 new paragraph
 \emph{strong <t>}.
 
+said so, see
+\href{http://example.org/a?b=\%7Bc&d}{the <site>}.
+\url{http://example.org/x}
+
 \setcounter{tocdepth}{3}
 \tableofcontents
 \setcounter{tocdepth}{0}
@@ -310,4 +317,5 @@ e
 Proof. split; [|vm_compute; split; reflexivity].
   vm_compute.
   repeat (apply Forall_cons; [first [left; first [exact I | left; reflexivity | right; left; reflexivity | right; right; left; reflexivity | right; right; right; left; reflexivity
-    | right; right; right; right; left; reflexivity | right; right; right; right; right; reflexivity] | right; left; eexists _, _, _; split; reflexivity | right; right; eexists _, _; reflexivity]|]). apply Forall_nil. Qed.
+    | right; right; right; right; left; reflexivity | right; right; right; right; right; left; reflexivity | right; right; right; right; right; right; left; reflexivity
+    | right; right; right; right; right; right; right; reflexivity] | right; left; eexists _, _, _; split; reflexivity | right; right; eexists _, _; reflexivity]|]). apply Forall_nil. Qed.
